@@ -219,4 +219,28 @@ theorem getitem_spec {α : Type} [Inhabited α] {d r : Data κ α} {sels : List 
       obtain ⟨h1, h2, h3⟩ := cut_spec h pos hlen hval
       exact ⟨pos, hlen, rfl, h1, h2, h3⟩
 
+/-- assignment through selectors: dims, coordinates and shape stay; an element is overwritten exactly when, on EVERY axis,
+    its index is one of the positions that READING through the same selector returns (the same `selPositions`), and is
+    left as it was otherwise -/
+theorem setitem_spec {α : Type} [Inhabited α] {d r : Data κ α} {sels : List (String × Sel κ)} {newv : List Nat → α}
+    (hr : d.setitemWith dist ltB sels newv = .ok r) :
+    let pos := d.dims.map (fun dim => (selFor sels dim).map (fun s => selPositions dist ltB (d.coord dim) s))
+    r.dims = d.dims ∧ r.coords = d.coords ∧ r.values.shape = d.values.shape ∧
+    ∀ idx, InB idx d.values.shape →
+      let hit := List.zipWith (fun i (p : Option (List Nat)) => match p with
+                    | none => some i
+                    | some p => let k := p.idxOf i; if k < p.length then some k else none) idx pos
+      r.values.get idx = if hit.all Option.isSome then newv (hit.map (·.getD 0)) else d.values.get idx := by
+  intro pos
+  unfold setitemWith at hr
+  split at hr
+  · cases hr
+  · simp only [Except.ok.injEq] at hr
+    subst hr
+    refine ⟨rfl, rfl, rfl, ?_⟩
+    intro idx hin
+    simp only
+    rw [Arr.get_ofFn _ hin]
+    rfl
+
 end Dnp.C05
